@@ -26,6 +26,17 @@ theorem wire_is_fifo (ops : List Op) :
     (runH ops).wire ++ pending (runH ops).st.queue = ((runH ops).ghost.map (·.2)).flatten :=
   Lemmas.SendQueue.wire_is_fifo ops
 
+/-- the same from ANY state, not only from a fresh connection: the history invariant `HInv` (queue
+    invariant + ghost bookkeeping) is inductive, so whatever state a connection is in when it
+    satisfies it — e.g. one rebuilt by `xmpp_conn_restore_sm_state` (C16.restored_then_fifo) — every
+    continuation keeps it and stays byte-exact FIFO -/
+theorem fifo_from_any_state (h : Hist) (hi : HInv h) (ops : List Op) :
+    HInv (ops.foldl stepH h) ∧
+    (ops.foldl stepH h).wire ++ pending (ops.foldl stepH h).st.queue =
+      (((ops.foldl stepH h).ghost.map (·.2)).flatten) :=
+  have hN := foldl_stepH_ind HInv hinv_step ops h hi
+  ⟨hN, hN.fifo⟩
+
 /-- one loop iteration, any accept schedule -/
 theorem run_fifo (s : St) (sched : List Accept) (h : Inv s) :
     (runOnce s sched).2 ++ pending (runOnce s sched).1.queue = pending s.queue ∨
@@ -83,5 +94,7 @@ example : (runH demo).st.smQueue.map (·.data) = [cs ['a','b','c'], cs ['x']] :=
 example : (step (runH (demo.take 4)).st (.drop .oldest)).2 = .dropped (some (cs ['d','e'])) := by
   decide
 example : (step ({} : St) (.drop .oldest)).2 = .dropped none := by decide
+/-- `fifo_from_any_state` is not vacuous: the fresh connection satisfies `HInv` -/
+example : HInv {} := hinv_init
 
 end Strophe.C06
